@@ -33,8 +33,8 @@ L = {
          'evalOp against the machine on every EVAL line (denote counters).', 'translation-validation style.'),
  'C08': ('Theorems: literal_exact, add/sub/mul exact-then-rounded-once, fix_rounds_to_nearest (nearest, ties to even, whole domain), '
          'division_is_correctly_rounded (sticky digit proved sufficient), cmp_is_exact_order; against Q (RatSpec): arithmetic_is_correctly_rounded '
-         '(|r - (a op b)| <= 1/2 ulp(r) for + - * /, all operands), comparisons_are_rational_order, quotient_identity, round_to_places_is_nearest (round(x, n): exponent -n, within half a unit of that place, ties to even, exact when nothing is dropped), round_to_integer_is_nearest. Correspondence vs CPython decimal; Fraction oracle monitor.',
-         '** and float() against Q pending.'),
+         '(|r - (a op b)| <= 1/2 ulp(r) for + - * /, all operands), comparisons_are_rational_order, quotient_identity, round_to_places_is_nearest (round(x, n): exponent -n, within half a unit of that place, ties to even, exact when nothing is dropped), round_to_integer_is_nearest, power_is_correctly_rounded (exact powers). Correspondence vs CPython decimal; Fraction oracle monitor.',
+         'inexact ** and float() against Q: correspondence only.'),
  'C09': ('Theorems: one-transition lemmas plus big-step theorems over sub-evaluations of any length (strict_bin_big_step, and/or/if-else laziness, '
          'args_big_step, dict_big_step, slice_big_step, hof_big_step for the callbacks of map / filter / reduce / sorted, operand_then_frame) via the frame lemma. '
          'Correspondence: probe-log slice; monitors: probe order / count, value of and/or chains.',
